@@ -114,10 +114,12 @@ check("C14", "model_checking",
       "Exhaustive enumeration of a typed term language: every term with <=2 (thorough: 3) operator nodes over a pool of real objects "
       "(8 boundary operators incl. complex/sparse/zero, 4 blocked incl. generalized, 8 discrete operator classes, 4 grid functions in "
       "primal and dual representation, 4 potential operators, 7 real/complex Python and numpy scalars) and the productions "
-      "+ - neg s* *s * @ / .T .H apply; a reference type checker decides well-typedness, a dense-matrix interpreter the value; "
+      "+ - += -= neg s* *s * @ / .T .H apply; a reference type checker decides well-typedness, a dense-matrix interpreter the value; "
       "well-typed terms must evaluate (to_dense, matvec on all unit vectors, complex vector, matmat, coefficients) to the reference, "
       "ill-typed ones must not produce numbers or exception objects. The pool has different spaces with equal dof counts so that "
-      "unchecked combinations produce numbers, not shape errors.",
+      "unchecked combinations produce numbers, not shape errors. Blocked construction: BFS over histories of blk[i,j] = op assignments "
+      "(2x2, 8 operators, depth 2 / 3) and all 4096 2x2 GeneralizedBlockedOperator arrangements against the typed model (accept iff "
+      "row range/dual and column domain agree; complete ones assembled and compared block by block).",
       "DESIGN.md 4/C14 and B.2",
       "Trusted: typing rules B.2; transposes of composite/inverse/zero discrete operators (scipy's generic fallback, no rmatvec) are declined.",
       "exhaustive enumeration of bounded-depth expression trees against a typed reference interpreter")
